@@ -539,6 +539,26 @@ package keeper
 //@ loop 1 over publicKeys
 //@ loop 1 invariant[C01.scan]   hint(loopidx) && loopidx >= 0 && loopidx <= len(publicKeys) && forall j: int :: hint(j) && 0 <= j && j < loopidx ==> fromHex(publicKeys[j].Attester) != recKey(message, old(attestation), i)
 
+// "Each by a different attester": strictly increasing *consecutive* signer addresses (the `ordered` conjunct of
+// validAtt) make the signers of any two positions p < q differ. Induction on q, mechanised as base, step and
+// conclusion; the induction principle over the naturals is the only step left to the reader.
+//@ lemma C01.distinct.base (m: bytes, att: bytes, T: uint32, p: uint32)
+//@ assume forall r: uint32 :: hint(r) && r < T ==> ordered(m, att, r)
+//@ assume p < 4294967295 && p + 1 < T && hint(p + 1)
+//@ assume reveal(addrLT(addrK(recKey(m, att, p)), addrK(recKey(m, att, p + 1))))
+//@ prove addrLess(addrK(recKey(m, att, p)), addrK(recKey(m, att, p + 1)))
+
+//@ lemma C01.distinct.step (m: bytes, att: bytes, T: uint32, p: uint32, q: uint32)
+//@ assume forall r: uint32 :: hint(r) && r < T ==> ordered(m, att, r)
+//@ assume p < q && q < 4294967295 && q + 1 < T && hint(q + 1)
+//@ assume reveal(addrLT(addrK(recKey(m, att, q)), addrK(recKey(m, att, q + 1))))
+//@ assume addrLess(addrK(recKey(m, att, p)), addrK(recKey(m, att, q)))
+//@ prove addrLess(addrK(recKey(m, att, p)), addrK(recKey(m, att, q + 1)))
+
+//@ lemma C01.distinct.concl (m: bytes, att: bytes, p: uint32, q: uint32)
+//@ assume addrLess(addrK(recKey(m, att, p)), addrK(recKey(m, att, q)))
+//@ prove addrK(recKey(m, att, p)) != addrK(recKey(m, att, q)) && recKey(m, att, p) != recKey(m, att, q) && sigN(att, p) != sigN(att, q) && p != q
+
 // The store iterator yields the prefix range in key order (L0); the list built from it is st.attList.
 //@ func (Keeper) GetAllAttesters(ctx) (list)
 //@ layer L2
